@@ -115,7 +115,7 @@ struct Registry {
     }
 };
 
-static Registry reg;
+inline Registry reg; // one registry for all translation units (the harness may be compiled in parts)
 
 struct Window {
     Window() { reg.window = true; }
@@ -137,7 +137,7 @@ constexpr bool has_move(int k) { return members(k) != CO; }
 constexpr bool def(int k, int bit) { return (k & bit) != 0; }
 constexpr bool adopts(int k) { return def(k, DEF_CC) || def(k, DEF_MC); }
 
-static int cur_kind = CM;
+inline int cur_kind = CM;
 
 template <int K, int TY>
 struct Elem {
@@ -1380,8 +1380,8 @@ struct FnSession final : Session {
 };
 
 // ---------------------------------------------------------------- dispatch
-
-static std::unique_ptr<Session> cur;
+// -DC03_PART=k (k = 0..5) compiles only the sessions of one element kind (make_kind_k); -DC03_PART=-1 compiles main() and
+// links the parts; without C03_PART everything is one translation unit.
 
 template <Own O, int K>
 static std::unique_ptr<Session> make_vec(int cap)
@@ -1411,6 +1411,35 @@ static std::unique_ptr<Session> make_session(std::string const& own, int cap)
     return nullptr;
 }
 
+std::unique_ptr<Session> make_kind_0(std::string const& own, int cap);
+std::unique_ptr<Session> make_kind_1(std::string const& own, int cap);
+std::unique_ptr<Session> make_kind_2(std::string const& own, int cap);
+std::unique_ptr<Session> make_kind_3(std::string const& own, int cap);
+std::unique_ptr<Session> make_kind_4(std::string const& own, int cap);
+std::unique_ptr<Session> make_kind_5(std::string const& own, int cap);
+
+#if !defined(C03_PART) || C03_PART == 0
+std::unique_ptr<Session> make_kind_0(std::string const& own, int cap) { return make_session<CM>(own, cap); }
+#endif
+#if !defined(C03_PART) || C03_PART == 1
+std::unique_ptr<Session> make_kind_1(std::string const& own, int cap) { return make_session<MO>(own, cap); }
+#endif
+#if !defined(C03_PART) || C03_PART == 2
+std::unique_ptr<Session> make_kind_2(std::string const& own, int cap) { return make_session<CO>(own, cap); }
+#endif
+#if !defined(C03_PART) || C03_PART == 3
+std::unique_ptr<Session> make_kind_3(std::string const& own, int cap) { return make_session<DA>(own, cap); }
+#endif
+#if !defined(C03_PART) || C03_PART == 4
+std::unique_ptr<Session> make_kind_4(std::string const& own, int cap) { return make_session<DM>(own, cap); }
+#endif
+#if !defined(C03_PART) || C03_PART == 5
+std::unique_ptr<Session> make_kind_5(std::string const& own, int cap) { return make_session<DC>(own, cap); }
+#endif
+
+#if !defined(C03_PART) || C03_PART == -1
+static std::unique_ptr<Session> cur;
+
 static std::string step(Line const& l)
 {
     static std::string const bad = "bad-op\tbad-op";
@@ -1423,12 +1452,12 @@ static std::string step(Line const& l)
         auto const& own  = l.str("own");
         auto const& kind = l.str("kind");
         int const cap    = static_cast<int>(l.i("cap", 1));
-        if (kind == "cm") { cur_kind = CM; cur = make_session<CM>(own, cap); }
-        else if (kind == "mo") { cur_kind = MO; cur = make_session<MO>(own, cap); }
-        else if (kind == "co") { cur_kind = CO; cur = make_session<CO>(own, cap); }
-        else if (kind == "da") { cur_kind = DA; cur = make_session<DA>(own, cap); }
-        else if (kind == "dm") { cur_kind = DM; cur = make_session<DM>(own, cap); }
-        else if (kind == "dc") { cur_kind = DC; cur = make_session<DC>(own, cap); }
+        if (kind == "cm") { cur_kind = CM; cur = make_kind_0(own, cap); }
+        else if (kind == "mo") { cur_kind = MO; cur = make_kind_1(own, cap); }
+        else if (kind == "co") { cur_kind = CO; cur = make_kind_2(own, cap); }
+        else if (kind == "da") { cur_kind = DA; cur = make_kind_3(own, cap); }
+        else if (kind == "dm") { cur_kind = DM; cur = make_kind_4(own, cap); }
+        else if (kind == "dc") { cur_kind = DC; cur = make_kind_5(own, cap); }
         if (!cur) return bad;
         return cur->line();
     }
@@ -1446,3 +1475,4 @@ static std::string step(Line const& l)
 }
 
 int main(int argc, char** argv) { return proto::run(argc, argv, step); }
+#endif
